@@ -87,7 +87,8 @@ def cases(ctx):
             sdk.append({"kind": "sdk-rot", "axis": axis, "n": n, "d": d, "expect": "in"})
     for v in (2**31, 2**31 + 9, -(2**31) - 1, 2**32, 2**40):
         sdk.append({"kind": "sdk-array-init", "value": v, "expect": "out"})
-        sdk.append({"kind": "sdk-loop", "stop": v, "expect": "out"})
+        if v > 0:      # (a negative stop is an empty range: the loop is compiled away, the value is never an operand)
+            sdk.append({"kind": "sdk-loop", "stop": v, "expect": "out"})
         sdk.append({"kind": "sdk-add", "value": v, "expect": "out"})
     for v in (0, 7, 2**31 - 1, -(2**31)):
         sdk.append({"kind": "sdk-array-init", "value": v, "expect": "in"})
@@ -100,6 +101,10 @@ def cases(ctx):
         sdk.append({"kind": "sdk-appid", "app_id": a, "expect": "in"})
     for a, e in ((65536, "out"), (70000, "out"), (7, "in")):
         sdk.append({"kind": "sdk-appid-precompiled", "app_id": a, "expect": e})
+    for axis in "XYZ":
+        for n in (256, 300, -1, 511, 2**32 + 1):
+            for d in (0, 2, 4):
+                sdk.append({"kind": "sdk-rot-hw", "axis": axis, "n": n, "d": d, "expect": "out"})
     for c in sdk:
         k += 1
         if ctx.mine(k):
@@ -175,7 +180,7 @@ def _np_types_for(v):
     for ty, lo, hi in (("int64", -2**63, 2**63 - 1), ("int32", -2**31, 2**31 - 1), ("uint16", 0, 65535), ("uint64", 0, 2**64 - 1), ("int16", -2**15, 2**15 - 1)):
         if lo <= v <= hi:
             out.append(ty)
-    return out[:3]
+    return out[:3] + (["array0"] if -2**63 <= v < 2**63 else [])
 
 
 def _rand_out(rng, kind):
@@ -194,6 +199,8 @@ def _typed(v, ty):
     if ty is None:
         return v
     import numpy as np
+    if ty == "array0":
+        return np.asarray(v)          # zero-dimensional array (np.squeeze, reshape(())): usable as an index, not an Integral
     return getattr(np, ty)(v)
 
 
@@ -383,6 +390,23 @@ def run_case(ctx, case):
             q = Qubit(conn)
             getattr(q, "rot_" + case["axis"])(n=_typed(case["n"], case.get("vtype")), d=_typed(case["d"], case.get("vtype")))
         sdk(prog, lambda descr, subs: any(d[0] == mn and d[1][1:] == [case["n"], case["d"]] for d in descr))
+    elif kind == "sdk-rot-hw":
+        # hardware angle normalisation (global switch used for runs on real hardware) rescales n * pi / 2^d to sixteenths of pi
+        # and may drop whole turns - but only of a numerator the instruction could hold in the first place
+        from netqasm.runtime.settings import set_is_using_hardware
+        from netqasm.sdk.transpile import NVSubroutineTranspiler
+        mn = "rot_" + case["axis"].lower()
+
+        def prog(conn):
+            set_is_using_hardware(True)       # (the harness resets the global switch when it builds the connection)
+            q = Qubit(conn)
+            getattr(q, "rot_" + case["axis"])(n=case["n"], d=case["d"])
+        try:
+            ctx.count("hardware_mode_rotations")
+            from netqasm.lang.instr.flavour import NVFlavour
+            sdk(prog, lambda descr, subs: False, compiler=NVSubroutineTranspiler, flavour=NVFlavour())
+        finally:
+            set_is_using_hardware(False)
     elif kind == "sdk-array-init":
         def prog(conn):
             conn.new_array(2, init_values=[_typed(case["value"], case.get("vtype")), 1])
